@@ -6,8 +6,10 @@ import (
 	"go/token"
 	"os"
 	"path/filepath"
+	"runtime"
 	"sort"
 	"strings"
+	"time"
 
 	"golang.org/x/tools/go/packages"
 	"verif.local/gcsim/simrt"
@@ -57,6 +59,7 @@ type feOutcome struct {
 	LoaderCalls   int
 	Attributed    bool // records carry the index of the package visit that printed them
 	LoaderTypeErr string
+	Stragglers    int // goroutines of the program still alive 5 s after its entry point returned
 }
 
 // mirrorFiles gives dst the position table of the given files of src: same
@@ -142,9 +145,25 @@ func (w *Worker) runFrontEnd(args []string, corpus *Corpus, pkgs []*packages.Pac
 	if w.siteCheckPackage < 0 {
 		start() // the library no longer has that function: simulate the whole entry point
 	}
+	goroutines0 := runtime.NumGoroutine()
 	defer func() {
 		simrt.LoaderHooks, simrt.ExitHook, simrt.LoaderMismatch = nil, nil, nil
 		simrt.ClearSiteHooks()
+		// The program's worker goroutines may still be unwinding when its entry point
+		// returns (go-critic's workers run the rest of their deferred function after the
+		// barrier opened). None of them may live into the next execution: a straggler of an
+		// execution with the scheduler off that reaches a wrapped operation after the
+		// scheduler was switched on for the NEXT execution would act as a task it is not.
+		if !simrt.Active() {
+			deadline := time.Now().Add(5 * time.Second)
+			for runtime.NumGoroutine() > goroutines0 && time.Now().Before(deadline) {
+				runtime.Gosched()
+				time.Sleep(50 * time.Microsecond)
+			}
+			if n := runtime.NumGoroutine(); n > goroutines0 {
+				out.Stragglers = n - goroutines0
+			}
+		}
 	}()
 	func() {
 		defer func() {
